@@ -15,6 +15,12 @@ import (
 	"time"
 
 	kruiseappsv1alpha1 "github.com/openkruise/kruise-api/apps/v1alpha1"
+	apps "k8s.io/api/apps/v1"
+	metav1 "k8s.io/apimachinery/pkg/apis/meta/v1"
+	"k8s.io/apimachinery/pkg/apis/meta/v1/unstructured"
+	"k8s.io/apimachinery/pkg/util/intstr"
+	"k8s.io/client-go/util/workqueue"
+	"sigs.k8s.io/controller-runtime/pkg/event"
 	corev1 "k8s.io/api/core/v1"
 	netv1 "k8s.io/api/networking/v1"
 	"k8s.io/apimachinery/pkg/types"
@@ -24,7 +30,12 @@ import (
 	"sigs.k8s.io/controller-runtime/pkg/client/fake"
 
 	"github.com/openkruise/rollouts/api/v1beta1"
+	"github.com/openkruise/rollouts/pkg/controller/batchrelease"
+	"github.com/openkruise/rollouts/pkg/controller/batchrelease/control/canarystyle"
+	canarydeployment "github.com/openkruise/rollouts/pkg/controller/batchrelease/control/canarystyle/deployment"
 	"github.com/openkruise/rollouts/pkg/controller/rollout"
+	expectations "github.com/openkruise/rollouts/pkg/util/expectation"
+	"github.com/openkruise/rollouts/pkg/util/luamanager"
 	"github.com/openkruise/rollouts/pkg/util/grace"
 
 	"verifharness/emit"
@@ -46,8 +57,33 @@ type ISOInput struct {
 	Owners   int          `json:"owners,omitempty"`
 	Ops      []ISOGraceOp `json:"ops,omitempty"`
 	Rollouts []TRInput    `json:"rollouts,omitempty"`
+	EOps     []ISOExpectOp `json:"eops,omitempty"`    // expect-store: calls on the process-wide creation-expectation store
+	Tenants  []ISOTenant   `json:"tenants,omitempty"` // expect-cp: canary-style BatchReleases, one per namespace
+	Sched    []ISOTenantOp `json:"sched,omitempty"`   // expect-cp: the interleaving of their reconciles and informer events
+	Scripts  []string      `json:"scripts,omitempty"` // lua: per worker the script it runs Rounds times
 	Rounds   int          `json:"rounds,omitempty"`
 	SameNS   bool         `json:"same_ns,omitempty"` // informational: the builders place every rollout in its own namespace
+}
+
+// ISOExpectOp is one call on pkg/util/expectation's store.
+type ISOExpectOp struct {
+	Op     string `json:"op"` // expect | observe | sat | delete
+	Owner  int    `json:"owner"`
+	Key    string `json:"key"`
+	Create bool   `json:"create,omitempty"`
+	UID    string `json:"uid,omitempty"`
+}
+
+// ISOTenant is one team's canary-style BatchRelease on its own Deployment in its own namespace.
+type ISOTenant struct {
+	NS       string `json:"ns"`
+	Name     string `json:"name"` // BatchRelease name: teams are free to choose the same one
+	Workload string `json:"workload"`
+}
+
+type ISOTenantOp struct {
+	Tenant int    `json:"tenant"`
+	Op     string `json:"op"` // reconcile (control-plane Initialize) | observe (the informer delivers the tenant's canary Deployments)
 }
 
 type ISOObs struct {
@@ -188,6 +224,123 @@ func isoReconcile(cli client.Client, ns string, rounds int, jitter bool) (panick
 	return ""
 }
 
+func isoRunExpect(ops []ISOExpectOp, only int) []*bool {
+	expectations.ResourceExpectations = expectations.NewResourceExpectations()
+	var out []*bool
+	for _, op := range ops {
+		if only >= 0 && op.Owner != only {
+			continue
+		}
+		act := expectations.Delete
+		if op.Create {
+			act = expectations.Create
+		}
+		switch op.Op {
+		case "expect":
+			expectations.ResourceExpectations.Expect(op.Key, act, op.UID)
+			out = append(out, nil)
+		case "observe":
+			expectations.ResourceExpectations.Observe(op.Key, act, op.UID)
+			out = append(out, nil)
+		case "delete":
+			expectations.ResourceExpectations.DeleteExpectations(op.Key)
+			out = append(out, nil)
+		default:
+			ok, _, _ := expectations.ResourceExpectations.SatisfiedExpectations(op.Key)
+			out = append(out, &ok)
+		}
+	}
+	expectations.ResourceExpectations = expectations.NewResourceExpectations()
+	return out
+}
+
+func isoTenantObjects(t ISOTenant, i int) (*apps.Deployment, *v1beta1.BatchRelease) {
+	n := int32(10)
+	labels := map[string]string{"app": t.Workload}
+	d := &apps.Deployment{TypeMeta: metav1.TypeMeta{APIVersion: "apps/v1", Kind: "Deployment"},
+		ObjectMeta: metav1.ObjectMeta{Namespace: t.NS, Name: t.Workload, Generation: 1, Labels: labels, UID: types.UID(fmt.Sprintf("wl-uid-%d", i))},
+		Spec: apps.DeploymentSpec{Paused: true, Replicas: &n, Selector: &metav1.LabelSelector{MatchLabels: labels}, Template: podTemplate()}}
+	d.Spec.Template.Labels = labels
+	br := &v1beta1.BatchRelease{TypeMeta: metav1.TypeMeta{APIVersion: v1beta1.GroupVersion.String(), Kind: "BatchRelease"},
+		ObjectMeta: metav1.ObjectMeta{Namespace: t.NS, Name: t.Name, UID: types.UID(fmt.Sprintf("br-uid-%d", i))}}
+	br.Spec.WorkloadRef = v1beta1.ObjectRef{APIVersion: "apps/v1", Kind: "Deployment", Name: t.Workload}
+	br.Spec.ReleasePlan.Batches = []v1beta1.ReleaseBatch{{CanaryReplicas: intstr.FromString("10%")}, {CanaryReplicas: intstr.FromString("100%")}}
+	return d, br
+}
+
+// isoRunTenants replays the schedule (all tenants, or only one of them) and returns per tenant what each of its steps
+// did: whether the reconcile returned an error and how many canary Deployments it owns afterwards.
+func isoRunTenants(in ISOInput, only int) [][]string {
+	expectations.ResourceExpectations = expectations.NewResourceExpectations()
+	defer func() { expectations.ResourceExpectations = expectations.NewResourceExpectations() }()
+	var objs []client.Object
+	brs := make([]*v1beta1.BatchRelease, len(in.Tenants))
+	for i, t := range in.Tenants {
+		d, br := isoTenantObjects(t, i)
+		brs[i] = br
+		objs = append(objs, d, br)
+	}
+	cli := fake.NewClientBuilder().WithScheme(FullScheme()).WithObjects(objs...).Build()
+	owned := func(i int) []apps.Deployment {
+		list := &apps.DeploymentList{}
+		_ = cli.List(context.TODO(), list, client.InNamespace(in.Tenants[i].NS))
+		var out []apps.Deployment
+		for _, d := range list.Items {
+			if o := metav1.GetControllerOf(&d); o != nil && o.UID == brs[i].UID {
+				out = append(out, d)
+			}
+		}
+		return out
+	}
+	res := make([][]string, len(in.Tenants))
+	h := batchrelease.VerifWorkloadEventHandler(cli)
+	q := workqueue.NewRateLimitingQueue(workqueue.DefaultControllerRateLimiter())
+	defer q.ShutDown()
+	for _, op := range in.Sched {
+		i := op.Tenant
+		if only >= 0 && i != only {
+			continue
+		}
+		t := in.Tenants[i]
+		switch op.Op {
+		case "observe":
+			for _, d := range owned(i) {
+				d := d
+				h.Create(event.CreateEvent{Object: &d}, q)
+			}
+			res[i] = append(res[i], "observed")
+		default:
+			st := &v1beta1.BatchReleaseStatus{}
+			cp := canarystyle.NewControlPlane(canarydeployment.NewController, cli, record.NewFakeRecorder(1000), brs[i].DeepCopy(), st,
+				types.NamespacedName{Namespace: t.NS, Name: t.Workload})
+			err := cp.Initialize()
+			res[i] = append(res[i], fmt.Sprintf("err=%v canaries=%d", err != nil, len(owned(i))))
+		}
+	}
+	return res
+}
+
+const isoLuaWeight = `
+local acc = {}
+for i = 1, 40 do acc[#acc + 1] = tostring(i * %d) end
+annotations = obj.annotations or {}
+annotations["w"] = table.concat(acc, ",") .. ":" .. tostring(obj.weight)
+return annotations
+`
+
+func isoRunLua(script string, weight int) string {
+	m := &luamanager.LuaManager{}
+	l, err := m.RunLuaScript(&unstructured.Unstructured{Object: map[string]any{"weight": int64(weight), "annotations": map[string]any{"a": "b"}}}, script)
+	if err != nil {
+		return "err: " + firstLine(err.Error())
+	}
+	by, err := luamanager.Encode(l.Get(-1))
+	if err != nil {
+		return "encode err: " + firstLine(err.Error())
+	}
+	return string(by)
+}
+
 func (isolationEngine) Run(inAny any) (out any) {
 	in := inAny.(ISOInput)
 	obs := ISOObs{}
@@ -197,6 +350,58 @@ func (isolationEngine) Run(inAny any) (out any) {
 			out = obs
 		}
 	}()
+	if in.Kind == "expect-store" {
+		obs.Answers = isoRunExpect(in.EOps, -1)
+		for o := 0; o < in.Owners; o++ {
+			var a []bool
+			for _, r := range isoRunExpect(in.EOps, o) {
+				if r != nil {
+					a = append(a, *r)
+				}
+			}
+			obs.Alone = append(obs.Alone, a)
+		}
+		return obs
+	}
+	if in.Kind == "expect-cp" {
+		together := isoRunTenants(in, -1)
+		for i := range in.Tenants {
+			solo := isoRunTenants(in, i)
+			obs.Solo = append(obs.Solo, strings.Join(solo[i], ";"))
+			obs.Together = append(obs.Together, strings.Join(together[i], ";"))
+		}
+		return obs
+	}
+	if in.Kind == "lua" {
+		// every worker runs its provider script Rounds times, as the Rollout workers do on every reconcile, all at once
+		res := make([][]string, len(in.Scripts))
+		var wg sync.WaitGroup
+		for w := range in.Scripts {
+			wg.Add(1)
+			go func(w int) {
+				defer wg.Done()
+				defer func() {
+					if p := recover(); p != nil {
+						res[w] = append(res[w], "panic: "+fmt.Sprint(p))
+					}
+				}()
+				for k := 0; k < in.Rounds; k++ {
+					res[w] = append(res[w], isoRunLua(in.Scripts[w], k))
+					runtime.Gosched()
+				}
+			}(w)
+		}
+		wg.Wait()
+		for w := range in.Scripts {
+			var solo []string
+			for k := 0; k < in.Rounds; k++ {
+				solo = append(solo, isoRunLua(in.Scripts[w], k))
+			}
+			obs.Solo = append(obs.Solo, strings.Join(solo, ";"))
+			obs.Together = append(obs.Together, strings.Join(res[w], ";"))
+		}
+		return obs
+	}
 	if in.Kind == "grace-par" {
 		// the owners' calls run on concurrent goroutines against the one process-wide store
 		grace.ResetExpectations()
@@ -338,6 +543,42 @@ func (isolationEngine) Coq(inAny any, obsAny any) string {
 		})
 		return emit.App("IGrace", ops, ans, alone, emit.Bool(obs.Panic != ""))
 	}
+	if in.Kind == "expect-store" {
+		ops := emit.ListOf(in.EOps, func(o ISOExpectOp) string {
+			it := emit.Pair(emit.Bool(o.Create), emit.Str(o.UID))
+			switch o.Op {
+			case "expect":
+				return emit.App("EExpect", emit.Str(o.Key), it)
+			case "observe":
+				return emit.App("EObserve", emit.Str(o.Key), it)
+			case "delete":
+				return emit.App("EDelete", emit.Str(o.Key))
+			}
+			return emit.App("ESatisfied", emit.Str(o.Key))
+		})
+		ans := emit.ListOf(obs.Answers, func(b *bool) string {
+			if b == nil {
+				return "None"
+			}
+			return emit.Some(emit.Bool(*b))
+		})
+		owners := make([]int, in.Owners)
+		for i := range owners {
+			owners[i] = i
+		}
+		alone := emit.ListOf(owners, func(o int) string {
+			var keys []string
+			seen := map[string]bool{}
+			for _, op := range in.EOps {
+				if op.Owner == o && !seen[op.Key] {
+					seen[op.Key] = true
+					keys = append(keys, op.Key)
+				}
+			}
+			return emit.Pair(emit.ListOf(keys, emit.Str), emit.ListOf(obs.Alone[o], emit.Bool))
+		})
+		return emit.App("IExpect", ops, ans, alone, emit.Bool(obs.Panic != ""))
+	}
 	if in.Kind == "grace-par" {
 		owners := make([]int, len(obs.Alone))
 		for i := range owners {
@@ -355,10 +596,68 @@ func (isolationEngine) Coq(inAny any, obsAny any) string {
 	for i := range idx {
 		idx[i] = i
 	}
-	return emit.App("IPar", emit.ListOf(idx, func(i int) string { return emit.Pair(emit.Str(obs.Solo[i]), emit.Str(obs.Together[i])) }), emit.Bool(obs.Panic != ""))
+	pairs := emit.ListOf(idx, func(i int) string { return emit.Pair(emit.Str(obs.Solo[i]), emit.Str(obs.Together[i])) })
+	switch in.Kind {
+	case "expect-cp":
+		return emit.App("IParK", emit.Str("canary-creation"), pairs, emit.Bool(obs.Panic != ""))
+	case "lua":
+		return emit.App("IParK", emit.Str("lua"), pairs, emit.Bool(obs.Panic != ""))
+	}
+	return emit.App("IPar", pairs, emit.Bool(obs.Panic != ""))
 }
 
 func (isolationEngine) Gen(r *rand.Rand, idx int, tier string) any {
+	switch idx % 10 {
+	case 3:
+		// the creation-expectation store under the keys the BatchRelease controller derives: namespace/name of the release
+		in := ISOInput{Kind: "expect-store", Owners: 2 + r.Intn(2)}
+		name := pick(r, "demo", "canary")
+		n := 5 + r.Intn(16)
+		for i := 0; i < n; i++ {
+			o := r.Intn(in.Owners)
+			key := fmt.Sprintf("ns-%d/%s", o, name)
+			uid := fmt.Sprintf("uid-%d", r.Intn(3)) // the same object names may well occur under several owners
+			switch r.Intn(10) {
+			case 0, 1, 2:
+				in.EOps = append(in.EOps, ISOExpectOp{Op: "expect", Owner: o, Key: key, Create: chance(r, 85), UID: uid})
+			case 3, 4:
+				in.EOps = append(in.EOps, ISOExpectOp{Op: "observe", Owner: o, Key: key, Create: chance(r, 85), UID: uid})
+			case 5:
+				in.EOps = append(in.EOps, ISOExpectOp{Op: "delete", Owner: o, Key: key})
+			default:
+				in.EOps = append(in.EOps, ISOExpectOp{Op: "sat", Owner: o, Key: key})
+			}
+		}
+		return in
+	case 5:
+		in := ISOInput{Kind: "expect-cp"}
+		k := 2 + r.Intn(2)
+		shared := chance(r, 70)
+		for i := 0; i < k; i++ {
+			t := ISOTenant{NS: fmt.Sprintf("team-%d", i), Name: "rollout-demo", Workload: pick(r, "web", "api", fmt.Sprintf("svc-%d", i))}
+			if !shared {
+				t.Name = fmt.Sprintf("rollout-%d", i)
+			}
+			in.Tenants = append(in.Tenants, t)
+		}
+		n := 3 + r.Intn(8)
+		for i := 0; i < n; i++ {
+			op := "reconcile"
+			if chance(r, 30) {
+				op = "observe"
+			}
+			in.Sched = append(in.Sched, ISOTenantOp{Tenant: r.Intn(k), Op: op})
+		}
+		return in
+	case 7:
+		in := ISOInput{Kind: "lua", Rounds: 4 + r.Intn(6)}
+		k := 3 + r.Intn(5)
+		for i := 0; i < k; i++ {
+			// fresh scripts per case: a provider script is first seen by several workers at the same moment
+			in.Scripts = append(in.Scripts, fmt.Sprintf(isoLuaWeight, 1+r.Intn(3)+1000*(idx%977)))
+		}
+		return in
+	}
 	if idx%4 != 0 {
 		in := ISOInput{Kind: "grace", Owners: 2 + r.Intn(2)}
 		n := 4 + r.Intn(14)
